@@ -112,6 +112,17 @@ Theorem C04_inner_root :
 Proof. exact @inner_root_walk. Qed.
 Print Assumptions C04_inner_root.
 
+(* Exclusion patterns decide about what the scan finds AT OR BELOW module_path only: two exclusion predicates that agree on
+   every path at or below [mp] give the same modules and the same parsed files - so a pattern that matches nothing but
+   directories above module_path (root_path's own directory among them) leaves the scan as it is without any pattern. *)
+Theorem C04_exclusions_above_module_path_irrelevant :
+  forall (comp : Type) (ceqb : comp -> comp -> bool) (e1 e2 : list comp -> bool) (root : comp)
+         (tree : list (@fsnode comp)) (mp : list comp),
+  (forall q, e1 (mp ++ q) = e2 (mp ++ q)) ->
+  walk_from ceqb e1 root tree mp = walk_from ceqb e2 root tree mp.
+Proof. exact @walk_from_excl_below. Qed.
+Print Assumptions C04_exclusions_above_module_path_irrelevant.
+
 (* non-vacuity: proj/src/proj - the inner directory bears the outer root's name *)
 Example C04_inner_root_example :
   let tree := [FDir 2%N [FDir 1%N [FFile 3%N true []; FDir 4%N [FFile 5%N true []]]]; FFile 6%N true []] in
